@@ -161,6 +161,11 @@ type sysConfOpts struct {
 	Env      []string
 	// AuthLimiter replaces the default auth_attempts/block_auth_min lines.
 	AuthLimiter string
+	// SessionTTL replaces the default session_ttl (720h).
+	SessionTTL string
+	// ExtraUsers is appended to the "users:" list (YAML list items, 2-space
+	// indented).
+	ExtraUsers string
 }
 
 func sysPasswordHash() string {
@@ -177,8 +182,12 @@ func sysWriteConfig(dir string, webPort, dnsPort int, o sysConfOpts) error {
 		o.QLogMemSize = 20
 	}
 	var sb strings.Builder
-	fmt.Fprintf(&sb, "http:\n  address: 127.0.0.1:%d\n  session_ttl: 720h\n", webPort)
+	if o.SessionTTL == "" {
+		o.SessionTTL = "720h"
+	}
+	fmt.Fprintf(&sb, "http:\n  address: 127.0.0.1:%d\n  session_ttl: %s\n", webPort, o.SessionTTL)
 	fmt.Fprintf(&sb, "users:\n  - name: %s\n    password: %s\n", sysUser, sysPasswordHash())
+	sb.WriteString(o.ExtraUsers)
 	if o.AuthLimiter != "" {
 		sb.WriteString(o.AuthLimiter)
 	} else {
